@@ -40,13 +40,21 @@ def run(ctx):
             for prior in ("Chrome-133", "Firefox-55"):
                 if prior != x["id"]:
                     shared.append(dict(x, prior_id=prior))
-        return scns + copies + shared
+        # custom specs that add a signature_algorithms_cert extension (PKCS#1 v1.5 + ECDSA) after signature_algorithms:
+        # the server still signs the handshake with a scheme from signature_algorithms (rsa_pss for an RSA key)
+        seen3, sac = set(), []
+        for x in scns:
+            if x["alpn"] or x["ver"] < 771 or (x["id"], x["ver"], x["cert"]) in seen3 or "Randomized" in x["id"]:
+                continue
+            seen3.add((x["id"], x["ver"], x["cert"]))
+            sac.append(dict(x, sigalgs_cert=True))
+        return scns + copies + shared + sac
     scns, events, rej, unadv, mc = nc.run_nego(ctx, "c10", subset=subset, shards=12)
     for r, s, d in classify(ctx, rej, scns, events, ("progress",), "C10"):
         err = (r["result"] or {}).get("cerr", "")
         grp = ("shared-group-%d" % s["group"] if "invalid server key share" in err
                else "hrr-to-hybrid-group-%d" % s["group"] if "CurvePreferences includes unsupported curve" in err else "other")
-        ctx.finding("progress:%s:%s:%s:v%d" % (d, grp, re.sub(r"@\d+", "@seed", s["id"]), s["ver"]) + (":fpcopy" if s.get("fp_copy") else "") + (":after-" + s["prior_id"] if s.get("prior_id") else ""),
+        ctx.finding("progress:%s:%s:%s:v%d" % (d, grp, re.sub(r"@\d+", "@seed", s["id"]), s["ver"]) + (":fpcopy" if s.get("fp_copy") else "") + (":after-" + s["prior_id"] if s.get("prior_id") else "") + (":sigalgs-cert" if s.get("sigalgs_cert") else ""),
                     "compliant server choice offered by %s is not completed: %s (client error: %s)" % (s["id"], d, err),
                     {"scenario": nc.scn_brief(s), "result": r["result"]})
     res = [e for e in events if e["ev"] == "Result"]
